@@ -9,7 +9,7 @@ open DymVerif
 macro "split_err" h:ident : tactic => `(tactic| (split at $h:ident; · cases $h:ident))
 
 theorem tradeable_ok {st : State} {a : Nat} {p : Plan} (h : tradeable st a = .ok p) :
-    st.plan = some p ∧ p.settled = false ∧ (a = 0 ∨ (p.enabled = true ∧ p.startTime ≤ st.now)) := by
+    st.plan = some p ∧ p.settled = false ∧ (a = st.owner ∨ (p.enabled = true ∧ p.startTime ≤ st.now)) := by
   unfold tradeable at h
   split at h
   · cases h
@@ -61,7 +61,7 @@ theorem chargeFee_ok {st : State} {a : Nat} {fee : Int} {l : Nat → Int} (h : c
     fee ≤ st.liq a ∧
     ((st.cfg.feeBase = false ∧ l = upd st.liq a (st.liq a - fee)) ∨
      (st.cfg.feeBase = true ∧ 0 < fee.tdiv 2 ∧
-        l = upd (upd st.liq a (st.liq a - fee)) 0 (upd st.liq a (st.liq a - fee) 0 + fee.tdiv 2))) := by
+        l = upd (upd st.liq a (st.liq a - fee)) st.owner (upd st.liq a (st.liq a - fee) st.owner + fee.tdiv 2))) := by
   unfold chargeFee at h
   split at h
   · cases h
@@ -84,7 +84,7 @@ theorem chargeFee_self {st : State} {a : Nat} {fee : Int} {l : Nat → Int} (h :
     subst h1; simp [upd]; omega
   · subst h1
     have : fee.tdiv 2 = fee / 2 := Int.tdiv_eq_ediv_of_nonneg (by omega)
-    by_cases ha : a = 0
+    by_cases ha : a = st.owner
     · subst ha; simp [upd]; omega
     · simp [upd, ha]; omega
 
@@ -165,7 +165,7 @@ theorem doCreate_ok {I : Int → Int} {st st' : State} {alloc m n c : Int} {L : 
                      claimed := st.cfg.creationFee, enabled := en, startTime := planStart en stt st.now,
                      preLaunch := planPre en (planStart en stt st.now) pd,
                      planDur := pd, liqPart := lp, settled := false, vest := { dur := vd, startAfter := vs } },
-      modIro := st.modIro + alloc, liq := upd st.liq 0 (st.liq 0 - cost I L 0 st.cfg.creationFee),
+      modIro := st.modIro + alloc, liq := upd st.liq st.owner (st.liq st.owner - cost I L 0 st.cfg.creationFee),
       planLiq := st.planLiq + cost I L 0 st.cfg.creationFee } := by
   unfold doCreate at h
   split at h
@@ -173,7 +173,7 @@ theorem doCreate_ok {I : Int → Int} {st st' : State} {alloc m n c : Int} {L : 
   · cases h
 
 theorem doEnable_ok {st st' : State} {a : Nat} (h : doEnable st a = .ok st') :
-    ∃ p, st.plan = some p ∧ p.enabled = false ∧ a = 0 ∧ p.settled = false ∧
+    ∃ p, st.plan = some p ∧ p.enabled = false ∧ a = st.owner ∧ p.settled = false ∧
       st' = { st with plan := some { p with enabled := true, startTime := st.now, preLaunch := st.now + p.planDur } } := by
   unfold doEnable at h
   split at h
@@ -231,7 +231,7 @@ theorem doClaim_ok {st st' : State} {a : Nat} (h : doClaim st a = .ok st') :
           exact ⟨p, hp, by simp_all, by omega, by omega, rfl⟩
 
 theorem doClaimVested_ok {st st' : State} {a : Nat} (h : doClaimVested st a = .ok st') :
-    ∃ p amt, st.plan = some p ∧ p.settled = true ∧ a = 0 ∧ vestedAmt p.vest st.now = some amt ∧ 0 < amt ∧
+    ∃ p amt, st.plan = some p ∧ p.settled = true ∧ a = st.owner ∧ vestedAmt p.vest st.now = some amt ∧ 0 < amt ∧
       amt ≤ st.planLiq ∧
       st' = { st with planLiq := st.planLiq - amt, liq := upd st.liq a (st.liq a + amt),
                       plan := some { p with vest := { p.vest with claimed := p.vest.claimed + amt } } } := by
@@ -259,6 +259,16 @@ theorem doXfer_ok {st st' : State} {a b : Nat} {amt : Int} (h : doXfer st a b am
     0 < amt ∧ amt ≤ st.iro a ∧
       st' = { st with iro := upd (upd st.iro a (st.iro a - amt)) b (upd st.iro a (st.iro a - amt) b + amt) } := by
   unfold doXfer at h
+  split at h
+  · cases h
+  · split at h
+    · cases h
+    · cases h
+      exact ⟨by omega, by omega, rfl⟩
+
+theorem doChown_ok {st st' : State} {a b : Nat} (h : doChown st a b = .ok st') :
+    a = st.owner ∧ b ≠ st.owner ∧ st' = { st with owner := b } := by
+  unfold doChown at h
   split at h
   · cases h
   · split at h
